@@ -22,7 +22,7 @@ func (Engine) DistinctRule() string {
 }
 
 var prefixes = []string{"", "public", "/public", "public/", "/public/", "/pre/fix"}
-var indexes = []string{"", "home.htm", "index.html", "missing.html"}
+var indexes = []string{"", "home.htm", "index.html", "missing.html", "/home.htm"}
 
 // Paths relative to the prefix.
 var relPaths = []string{
@@ -30,7 +30,7 @@ var relPaths = []string{
 	"/deep/x/y/z.txt", "/deep/x/y", "/deep", "/idxdir", "/idxdir/", "/home.htm", "/sp ace.txt", "/dot..file", "/.env", "/app.js", "/ity/page.html",
 	"/missing.txt", "/sub/missing", "/a.txt/", "/a.txt/x",
 	"/../outside/secret.txt", "/sub/../../outside/secret.txt", "/../../../outside/secret.txt", "/../pubX/look.txt", "/../secret.txt", "/..", "/../", "/../pub.env",
-	"/sub/../a.txt", "/sub/./b.txt", "/./a.txt", "//a.txt", "/sub//b.txt", "///", "/a.txt\x00", "/\x00", "/sub/\x00/b.txt", "/..\\outside\\secret.txt",
+	"/sub/../a.txt", "/sub/./b.txt", "/./a.txt", "//a.txt", "//sub", "//sub/", "/sub//b.txt", "///", "/a.txt\x00", "/\x00", "/sub/\x00/b.txt", "/..\\outside\\secret.txt",
 	"/%2e%2e/outside/secret.txt", "/...", "/sub/..", "/sub/../", "/deep/x/../../a.txt", "/deep/../../outside/a.txt", "/outside/secret.txt", "/pub/a.txt",
 }
 
@@ -87,7 +87,7 @@ func (Engine) Run(t *tape.Tape, o eng.Opts) *eng.Result {
 	cfg := sched.Config{Sched: t.Stream("sched"), Time: t.Stream("time"), MaxSteps: world.StepCap(12000), KeepLog: o.Trace}
 	world.PickPolicy(sw, &cfg)
 
-	spec := &world.StaticSpec{Prefix: prefixes[gen.Weighted(3, 2, 3, 1, 1, 1)], Index: indexes[gen.Weighted(4, 2, 1, 1)], ETag: gen.Intn(2) == 1,
+	spec := &world.StaticSpec{Prefix: prefixes[gen.Weighted(3, 2, 3, 1, 1, 1)], Index: indexes[gen.Weighted(4, 2, 1, 1, 1)], ETag: gen.Intn(2) == 1,
 		Expires: gen.Intn(3) == 1, CacheControl: gen.Intn(3) == 1, Logging: gen.Intn(4) == 1, UseDirectory: backing == 2}
 	setup := &world.Setup{Env: 1, Static: spec}
 	setup.Mw = []world.HSpec{{Kind: world.HkToken}}
@@ -112,6 +112,9 @@ func (Engine) Run(t *tape.Tape, o eng.Opts) *eng.Result {
 		for k := 0; k < n; k++ {
 			gen.Begin("req")
 			q := &world.Req{ID: id, Name: "q" + itoa(id), PlannedCancel: -1}
+			if gen.Intn(4) == 1 {
+				q.Query = "v=" + itoa(id)
+			}
 			id++
 			info := &reqInfo{q: q}
 			q.Method = methods[gen.Weighted(8, 3, 1, 1, 1, 1, 1)]
@@ -144,7 +147,7 @@ func (Engine) Run(t *tape.Tape, o eng.Opts) *eng.Result {
 			}
 			q.Progs = make([][]world.Act, world.MaxPos)
 			q.Rets = make([]world.Ret, world.MaxPos)
-			q.Progs[nextPos] = []world.Act{{Op: world.OpSeeHeaders}, {Op: world.OpWrite, A: 8}}
+			q.Progs[nextPos] = []world.Act{{Op: world.OpSeeHeaders}, {Op: world.OpSeePath}, {Op: world.OpWrite, A: 8}}
 			gen.End()
 			if !faultFree {
 				fg.Begin("fault")
@@ -160,8 +163,8 @@ func (Engine) Run(t *tape.Tape, o eng.Opts) *eng.Result {
 					target := []string{"a.txt", "index.html", "sub/index.html", "sub", "sub/b.txt", "noindex/c.txt", "home.htm", "big.bin", "idxdir"}[fg.Intn(9)]
 					if own := strings.Trim(info.rel, "/"); fg.Intn(5) < 3 && d.files[own] != nil {
 						target = own // aim at the very file or directory this request names
-						if d.files[own].spec.isDir && d.files[path.Join(own, index)] != nil && fg.Intn(2) == 1 {
-							target = path.Join(own, index)
+						if d.files[own].spec.isDir && d.files[strings.TrimPrefix(path.Join("/", own, index), "/")] != nil && fg.Intn(2) == 1 {
+							target = strings.TrimPrefix(path.Join("/", own, index), "/")
 						}
 					}
 					version := 1 + fg.Intn(8)
@@ -334,6 +337,16 @@ func (Engine) Run(t *tape.Tape, o eng.Opts) *eng.Result {
 		if !wrote && nextAt >= 0 && headersAtNext != "" && headersAtNext != "X-Echo-Req" {
 			viol("silent-but-headers", "Static stayed silent but left response headers behind: "+headersAtNext+"\n  "+desc)
 		}
+		if nextAt >= 0 {
+			for i := nextAt; i < len(q.Events); i++ {
+				if e := q.Events[i]; e.K == world.EvNote && strings.HasPrefix(e.S, "sees=") {
+					if e.S != "sees="+q.Method+" "+q.Path+"?"+q.Query {
+						viol("request-rewritten", "the handler after Static sees "+quote(e.S[5:])+" instead of the request as it came in\n  "+desc)
+					}
+					break
+				}
+			}
+		}
 		if !wrote {
 			res.Probes["silent"]++
 			if fsCalls > 0 || mutations > 0 {
@@ -348,7 +361,7 @@ func (Engine) Run(t *tape.Tape, o eng.Opts) *eng.Result {
 				if strings.HasSuffix(rest, "/") || rest == "" {
 					dir := strings.Trim(rest, "/")
 					if fd, ok := dirOK(d, dir); ok && fd {
-						if f := d.files[path.Join(dir, index)]; f != nil && !f.spec.isDir && strings.HasSuffix(q.Path, "/") {
+						if f := d.files[strings.TrimPrefix(path.Join("/", dir, index), "/")]; f != nil && !f.spec.isDir && strings.HasSuffix(q.Path, "/") {
 							viol("should-serve-index", "a directory with an index file, requested with a trailing slash, was not served through it\n  "+desc)
 						}
 					}
@@ -377,7 +390,7 @@ func (Engine) Run(t *tape.Tape, o eng.Opts) *eng.Result {
 					if isDir, _ := dirOK(d, want); isDir && !strings.HasSuffix(q.Path, "/") {
 						viol("directory-without-redirect", "a directory requested without trailing slash was answered with content instead of a redirect to its slash-terminated form\n  "+desc)
 					}
-					if !d.containedIn(want, body) && !d.containedIn(path.Join(want, index), body) {
+					if !d.containedIn(want, body) && !d.containedIn(strings.TrimPrefix(path.Join("/", want, index), "/"), body) {
 						viol("wrong-file", "the body is the content of "+quote(inRel)+" but the request names "+quote(want)+"\n  "+desc)
 					}
 				}
@@ -416,7 +429,7 @@ func (Engine) Run(t *tape.Tape, o eng.Opts) *eng.Result {
 			case isDir && !strings.HasSuffix(q.Path, "/") && (staticStatus < 300 || staticStatus >= 400):
 				viol("directory-without-redirect", "a directory requested without trailing slash was answered "+itoa(staticStatus)+" instead of being redirected (or passed over)\n  "+desc)
 			case isDir && strings.HasSuffix(q.Path, "/"):
-				if fi := d.files[path.Join(want, index)]; fi == nil || fi.spec.isDir {
+				if fi := d.files[strings.TrimPrefix(path.Join("/", want, index), "/")]; fi == nil || fi.spec.isDir {
 					viol("answered-directory-without-index", "Static answered "+itoa(staticStatus)+" for a directory that has no index file\n  "+desc)
 				}
 			}
